@@ -134,6 +134,15 @@ Example C05_compound_order_witness :
   run spec_d [] vs e = Some (0, OP (PNum 0x4000000000000000), [OP (PNum 0x4000000000000000)], []).
 Proof. vm_compute. split; reflexivity. Qed.
 
+(* typeof (1 ? nope : 0): 11.12 returns GetValue of the branch (ReferenceError, tag 4); otto hands the
+   Reference on and typeof answers "undefined" *)
+Theorem C05_cond_reference_refuted : exists e, run model_d [] [] e <> run spec_d [] [] e.
+Proof.
+  exists (EUn 4 (ECond (ELit (VP (PBool true))) EUnres (ELit (VP PNull)))).
+  vm_compute. discriminate.
+Qed.
+Print Assumptions C05_cond_reference_refuted.
+
 (* String(9007199254740993) *)
 Theorem C05_int_repr_tostring_refuted :
   exists n, Some (int_to_string n) <> number_to_string (of_int n).
@@ -149,6 +158,20 @@ Example C05_toInt32_samples :
 Proof. vm_compute. repeat split; reflexivity. Qed.
 Example C05_divide_range_met : 0 <= 0x3FF0000000000000 < 2 ^ 64 /\ fdiv 0x3FF0000000000000 0x4008000000000000 = 0x3FD5555555555555.
 Proof. vm_compute. split; [split; [discriminate | reflexivity] | reflexivity]. Qed.
+(* 11.11, 11.14, 11.1.6: && || and the comma operator apply GetValue, parentheses keep the Reference:
+   typeof (0 || nope) throws ReferenceError, typeof (nope) is "undefined";
+   (0, o.f)() runs with the global object (0) as this, (o.f)() with o (id 1); delete (0, o.x) leaves o.x alone *)
+Example C05_reference_samples :
+  let F := ELit (VP (PBool false)) in
+  run spec_d [] [] (EUn 4 (EBin 22 F EUnres)) = Some (4, OP PUndef, [], []) /\
+  run model_d [] [] (EUn 4 (EBin 22 F EUnres)) = Some (4, OP PUndef, [], []) /\
+  run spec_d [] [] (EUn 4 EUnres) = Some (0, OP (PStr s_undefined), [], []) /\
+  run spec_d [] [] (ECall (EBin 23 F (EMem 1 3 PNull))) = Some (0, OP (PNum 0), [], []) /\
+  run spec_d [] [] (ECall (EMem 1 3 PNull)) = Some (0, OP (PNum 0x3FF0000000000000), [], []) /\
+  run spec_d [] [] (EBin 23 (EUn 13 (EBin 23 F (EMem 1 2 PNull))) (EMem 1 2 PNull)) = Some (0, OP PNull, [], []) /\
+  run spec_d [] [] (EBin 23 (EUn 13 (EMem 1 2 PNull)) (EMem 1 2 PNull)) = Some (0, OP PUndef, [], []).
+Proof. vm_compute. repeat split; reflexivity. Qed.
+
 (* 8.12.8: valueOf returning an object falls through to toString; the call log records both *)
 Definition st0 : state := {| vars := [VP PNull]; log := []; tbl := []; protos := [] |}.
 Definition pure_obj : value :=
